@@ -100,6 +100,10 @@ def gen_cases(tier, seed, configs):
         D, H, periodic, kind, parts, bs, mode = corefam.random_tree_params(r, configs, max_n=64, big=(tier != "quick"))
         upper = r.choice([2, 1, 0]) if not periodic else r.choice([1, 0, 2])
         body = ["exec seq flags=63 upper=%d" % upper]
+        if k % 3 != 0:
+            # leaf clause: particles on the faces of their cell, one ulp inside them, on the upper faces of the box
+            offs = [r.choice([0, 1, 1, 2, 3, 4, 4]) for _ in range(len(parts) * D)]
+            body = ["offs %d %s" % (len(parts), " ".join(str(o) for o in offs)), "build bs=%d mode=%d" % (bs, mode)] + body
         cases.append(corefam.make_case("c02-%d" % k, D, H, periodic, parts, bs, mode, body, {"kind": kind, "upper": upper}))
     return cases
 
